@@ -136,14 +136,13 @@ class Roles:
         return self._memo(("constructing", adt_suffix, variant), go)
 
     def invalidation_notifiers(self):
-        """bodies that write to_execute := true and construct Invalidated (excluding the constructor of the helper)"""
+        """helper methods that write to_execute := true (the constructor builds the struct by aggregate and is not a method)"""
         def go():
             out = []
-            for (b, sites) in self.bodies_constructing("ActorInputMessage", "Invalidated"):
-                for (wb, bb, st) in self.field_writes("to_execute"):
-                    if wb is b and st["rv"]["k"] == "use" and st["rv"]["op"]["k"] == "const" and st["rv"]["op"]["val"] == "true":
-                        out.append(b)
-                        break
+            hm = self.helper_methods()
+            for (wb, bb, st) in self.field_writes("to_execute"):
+                if wb in hm and st["lhs"]["proj"] and st["rv"]["k"] == "use" and st["rv"]["op"]["k"] == "const" and st["rv"]["op"]["val"] == "true" and wb not in out:
+                    out.append(wb)
             return out
         return self._memo("inv_notifiers", go)
 
